@@ -29,6 +29,9 @@ type tooth struct {
 	new    string
 	expect string // substring of the new failing key
 	patch  string // alternatively: a unified diff to apply (seeded changes kept under /verif/seeded)
+	// alternatively: a fix: commit of /repo to take back (its diff applied in reverse): the finding it
+	// repaired has to be reported again
+	revert string
 }
 
 type toothResult struct {
@@ -61,6 +64,8 @@ func runTeeth(c *Ctx, pd *propDef) {
 			mine = append(mine, tooth{prop: c.Prop, name: "seeded/" + e.Name(), file: "patch.diff", patch: filepath.Join(c.VerifDir, "seeded", e.Name(), "patch.diff")})
 		}
 	}
+	// every repaired finding of this property: taking the repair back must bring the report back
+	mine = append(mine, revertTeeth(c)...)
 	if len(mine) == 0 {
 		return
 	}
@@ -116,7 +121,7 @@ var runThorough = runTeeth
 func runTooth(self string, c *Ctx, t tooth, base map[string]bool) toothResult {
 	res := toothResult{t: t}
 	var b []byte
-	if t.patch == "" {
+	if t.patch == "" && t.revert == "" {
 		src := filepath.Join(c.Repo, t.file)
 		var err error
 		b, err = os.ReadFile(src)
@@ -140,7 +145,19 @@ func runTooth(self string, c *Ctx, t tooth, base map[string]bool) toothResult {
 		res.status, res.detail = "error", "copy failed: "+string(out)
 		return res
 	}
-	if t.patch != "" {
+	if t.revert != "" {
+		diff, err := exec.Command("git", "-C", c.Repo, "show", "--format=", t.revert, "--", ".").Output()
+		if err != nil || len(diff) == 0 {
+			res.status, res.detail = "skipped", "commit not available in "+c.Repo
+			return res
+		}
+		pc := exec.Command("patch", "-R", "-p1", "-s", "-f", "-d", dir)
+		pc.Stdin = bytes.NewReader(diff)
+		if out, err := pc.CombinedOutput(); err != nil {
+			res.status, res.detail = "skipped", "later commits rewrote the same lines, the repair cannot be taken back mechanically: "+firstLine(string(out))
+			return res
+		}
+	} else if t.patch != "" {
 		pf, err := os.Open(t.patch)
 		if err != nil {
 			res.status, res.detail = "skipped", "patch not readable"
@@ -190,4 +207,22 @@ func runTooth(self string, c *Ctx, t tooth, base map[string]bool) toothResult {
 	res.status = "missed"
 	res.detail = fmt.Sprintf("expected a new failing key containing %q, got %v", t.expect, res.newKeys)
 	return res
+}
+
+// revertTeeth: one tooth per repaired finding of the property (known_findings.json, status fixed).
+func revertTeeth(c *Ctx) []tooth {
+	var out []tooth
+	seen := map[string]bool{}
+	known, err := loadKnown(c.VerifDir)
+	if err != nil {
+		return nil
+	}
+	for _, k := range known {
+		if k.Property != c.Prop || k.Status != "fixed" || k.Commit == "" || seen[k.Commit+k.Key] {
+			continue
+		}
+		seen[k.Commit+k.Key] = true
+		out = append(out, tooth{prop: c.Prop, name: "revert/" + k.Commit + "/" + k.Key, file: "(commit " + k.Commit + " reversed)", revert: k.Commit, expect: k.Key})
+	}
+	return out
 }
